@@ -167,6 +167,12 @@ theorem step_inv2 {s : State} (h : Inv2 s) (l : Label) : Inv2 (step s l) := by
   | writer i => exact writer_inv2 h i
   | casSpurious i => exact spurious_inv2 h i
   | actor i => exact actor_inv2 h i
+  | shutdown =>
+    show Inv2 (shutdownStep s)
+    unfold shutdownStep
+    split
+    · exact h
+    · exact ⟨h.1, h.2, h.3, h.4⟩
 
 theorem run_inv2 (sc : Scenario) (ls : List Label) : Inv2 (run sc ls) := by
   unfold run
